@@ -32,7 +32,8 @@ SAMPLERS = dict(ANGLES, **{"rln:rlnAngleRot": angle_sampler, "rln:rlnAngleTilt":
 def rframe(cols, prefix="rln:"):
     f = Frame({c: sym(prefix + c) for c in cols}, list(cols), prefix=prefix, name="relion_df")
     f.space = Space("relion", how="root")
-    f.labels_positional = True  # RELION tables come from Starfile.read or from create_relion_df: a fresh 0..n-1 index (see the quantifier)
+    # RELION tables usually come from Starfile.read or create_relion_df (fresh 0..n-1 index), but the constructor also takes a table
+    # the caller has selected from or sorted: its index is not known to be 0..n-1
     return f
 
 
@@ -397,8 +398,34 @@ def o39(ctx):
         ctx.finding(q, blocks[0], "the renumbered list must be stored as subtomo_id", blocks[0], m)
 
 
+def o310(ctx):
+    """writing a list out does not change the list: no field of self.df is rewritten by write_out (names, half-sets and the re-imported
+    numbers must come from the particle's own subtomogram number)"""
+    q = CLS + ".write_out"
+    m, fn = ctx.prog.func(q)
+    ctx.touched(q)
+    cols = list(ctx.prog.class_attr("cryomotl.Motl", "motl_columns"))
+    for v in VERSIONS:
+        for optics in (False, True):
+            it = Interp(ctx.prog, no_inline=("starfileio.Starfile.write",),
+                        assume=assume_map({"binning != 1.0 and version >= 4.0": False, "use_original_entries": False, "write_optics": optics}))
+            me = me_obj(ctx.prog, v)
+            it.run(q, [K("out.star")], {"tomo_format": K(TOMO_FMT), "subtomo_format": K(SUB_FMT), "write_optics": K(optics)}, self_obj=me)
+            df = me.attrs.get("df")
+            if not isinstance(df, Frame):
+                raise Unsupported("RelionMotl.write_out leaves no table in self.df", fn)
+            changed = [c for c in cols if c not in df.cols or df.cols[c] != sym(c)]
+            ctx.count(1, {"version": v, "optics": optics, "fields rewritten by write_out": changed})
+            if changed:
+                site = last_store(it, df, changed[0]) or fn
+                ctx.finding(q, f"fields {changed[:4]} of the list", f"RELION {v}: write_out rewrites {changed[:4]} of the list it exports: the exported names / "
+                            f"half-sets then follow the rewritten values ({tm.show(df.cols[changed[0]])[:80] if changed[0] in df.cols else 'absent'}) "
+                            "instead of the particle's own numbers, and the caller's list is altered by an export", site, m)
+
+
 def _obligations():
     return [
+        Obligation("O3.10", "write_out leaves the exported list unchanged (all versions, optics on/off)", o310, floor=6),
         Obligation("O3.9", "import: half-set renumbering automaton -- 1 <-> odd, 2 <-> even, strictly increasing (finite abstraction, exhaustive)", o39, floor=12),
         Obligation("O3.1", "export: ZYZ(rlnAngleRot,Tilt,Psi) is the inverse of the particle rotation (3.0/3.1/4.0)", o31, floor=3),
         Obligation("O3.2", "import: zxz(phi,theta,psi) is the inverse of the RELION rotation, for any order of the angle columns", o32, floor=6),
@@ -413,4 +440,4 @@ def _obligations():
 
 
 def obligations():
-    return _obligations() + [constructors_obligation(['cryomotl.RelionMotl']), labels_obligation("C03"), selectors_obligation("C03"), effects_obligation("C03")]
+    return _obligations() + [converters_obligation([("cryomotl.emmotl2relion", {"flip_handedness": K(False), "output_motl_path": K(None)}, {"flip_handedness": False})]), constructors_obligation(['cryomotl.RelionMotl']), labels_obligation("C03"), selectors_obligation("C03"), effects_obligation("C03")]
